@@ -39,6 +39,7 @@ CASES = {'quick': 14000, 'thorough': 200000}
 TIME = {'quick': 70, 'thorough': 540}
 MIN_NONTRIVIAL = {'quick': 1500, 'thorough': 15000}
 REQUIRED = ('static_attributes_compared', 'variant_codes_checked',
+            'export_round_trips',
             'fixed_limit_offers', 'no_limit_offers', 'pot_limit_offers',
             'pot_limit_offers_raked_pot',
             'rounds_capped_at_four', 'hole_facings_checked',
@@ -206,6 +207,47 @@ def check_static(res):
                         street.max_completion_betting_or_raising_count,
                         sp['cap'])
             res.sigs.add(sig('static', name, small, big, str(mode), boards))
+        # game -> hand history -> game: a history made from a state of this
+        # class must re-create THIS game (same class, same deck), or the
+        # export must be refused (classes without a variant code)
+        if name in gen.BUTTON_GAMES_MINBET:
+            ga = [True, 0, (1, 2), 2]
+        elif name in gen.BUTTON_GAMES_TWOBETS:
+            ga = [True, 0, (1, 2), 2, 4]
+        else:
+            ga = [True, 1, 1, 2, 4]
+        res.counters['export_round_trips'] += 1
+        try:
+            g0 = cls(tuple(Automation), *ga)
+            st0 = g0((50, 50, 50), 3)
+            hh0 = HandHistory.from_game_state(g0, st0)
+        except (KeyError, ValueError):
+            hh0 = None
+        except Exception as exc:   # noqa: BLE001
+            hh0 = None
+            res.violation(f'{name}: from_game_state raised '
+                          f'{type(exc).__name__}: {exc}',
+                          {'kind': 'static', 'game': name})
+        if hh0 is not None:
+            try:
+                g1 = hh0.create_game()
+                st1 = hh0.create_state()
+                if type(g1) is not cls or st1.deck != st0.deck or \
+                        st1.hand_types != st0.hand_types:
+                    res.violation(
+                        f'{name}: a history exported from this game is '
+                        f'written as variant {hh0.variant!r} and re-creates '
+                        f'{type(g1).__name__} with a {len(st1.deck)}-card '
+                        f'deck (original: {len(st0.deck)} cards)',
+                        {'kind': 'static', 'game': name})
+            except Exception as exc:   # noqa: BLE001
+                res.violation(f'{name}: exported history cannot re-create '
+                              f'the game: {type(exc).__name__}: {exc}',
+                              {'kind': 'static', 'game': name})
+        elif sp['code'] is not None:
+            res.violation(f'{name} has variant code {sp["code"]!r} but '
+                          f'from_game_state refuses it',
+                          {'kind': 'static', 'game': name})
         # variant code <-> class, create_game forwarding
         code = sp['code']
         if code is None:
